@@ -1,6 +1,7 @@
 package sctp
 
 import (
+	"strings"
 	"fmt"
 	"os"
 	"sort"
@@ -63,6 +64,20 @@ func c10Observe(a *Association) c10Obs {
 	return o
 }
 
+// rackLog counts the chunks the time-based (RACK) loss detector declares lost: the library has no
+// other observable trace of that decision once the retransmission has gone out, and it logs each
+// one ("RACK: mark lost tsn=", "RACK timer: mark lost tsn=").
+type rackLog struct {
+	nopLogger
+	marks int
+}
+
+func (l *rackLog) Tracef(f string, _ ...any) {
+	if strings.Contains(f, "mark lost") {
+		l.marks++
+	}
+}
+
 func c10Scenario(cfg c10Cfg, seq []int) *Scenario {
 	return &Scenario{
 		Name:    "flow",
@@ -82,6 +97,10 @@ func c10Scenario(cfg c10Cfg, seq []int) *Scenario {
 				return
 			}
 			a := p.a
+			rl := &rackLog{}
+			a.lock.Lock()
+			a.log = rl
+			a.lock.Unlock()
 			s, _ := a.OpenStream(1, PayloadTypeWebRTCBinary)
 			m.streamsSeen = append(m.streamsSeen, s)
 			P := int(a.maxPayloadSize)
@@ -108,6 +127,7 @@ func c10Scenario(cfg c10Cfg, seq []int) *Scenario {
 			gapRun := 0 // consecutive gap-only SACKs (same cumulative ack) the harness has injected
 			for step, ev := range seq {
 				before := c10Observe(a)
+				marks0 := rl.marks
 				gapSack := false
 				name := c10Names[ev]
 				switch ev {
@@ -223,11 +243,22 @@ func c10Scenario(cfg c10Cfg, seq []int) *Scenario {
 					if want < cfg.minCwnd {
 						want = cfg.minCwnd
 					}
-					if after.cwnd != want {
+					rackToo := rl.marks > marks0 && after.cwnd == min(before.cwnd, want) // the time-based detector spoke first in this very event
+					if after.cwnd != want && !rackToo {
 						m.Failf("cwnd.fastrtx", "%s: loss signalled by three gap reports but cwnd went %d -> %d, want %d", where, before.cwnd, after.cwnd, want)
 					}
 				} else if before.inFR && after.inFR && after.cwnd > before.cwnd {
 					m.Failf("cwnd.fr-growth", "%s: cwnd grew %d -> %d while in fast recovery", where, before.cwnd, after.cwnd)
+				}
+				if rl.marks > marks0 && after.t3 == before.t3 && !before.inFR && before.cwnd > floor &&
+					after.cwnd >= before.cwnd && after.ssthresh == before.ssthresh && !after.inFR {
+					// a chunk was declared lost by the time-based detector and is retransmitted: a loss
+					// signal like any other, and nothing of the congestion state reacted to it
+					m.Failf("cwnd.rack-loss", "%s: %d chunk(s) declared lost by the RACK detector and retransmitted, yet no congestion response: cwnd %d -> %d, ssthresh %d unchanged, not in fast recovery, no T3 expiry", where, rl.marks-marks0, before.cwnd, after.cwnd, after.ssthresh)
+				}
+				if rl.marks > marks0 && !before.inFR && after.inFR && !modelFR {
+					// recovery episode opened by the time-based detector
+					modelFR, modelExit = true, a.myNextTSN-1
 				}
 				switch {
 				case gapSack:
